@@ -408,7 +408,7 @@ func runCase(rep *ev.Reporter, c *Case, maxRuns int, fs *FamilyStats, judge func
 						}
 					}
 
-					if c.Histories && len(tr.Choices) > 0 && allZero(tr.Choices) {
+					if c.Histories && (len(tr.Choices) > 0 && allZero(tr.Choices) || len(tr.Choices) == 0 && !hx.OrderLive()) {
 						for _, hv := range historyVariants(c, b, prog, mk) {
 							atomic.AddInt64(&fs.HistoryRuns, 1)
 							for _, v := range judge(hv.c, hv.tr, hv.w) {
